@@ -1,4 +1,5 @@
 import ArgMapper.Model.Reach
+import ArgMapper.Proofs.ErrorProp
 /-!
 # C04 — a failing converter aborts the call and its error is returned verbatim
 
@@ -7,7 +8,7 @@ for every graph, every oracle (legal or not), every behaviour and every fuel: th
 about path choice.
 -/
 namespace ArgMapper.C04
-open ArgMapper
+open ArgMapper ErrorProp
 
 /-- **C04_error_propagation (i)** — if an execution during the call returned a non-nil error `ε`,
 that execution is the last one of the call (nothing — no converter, not the target — ran after
@@ -19,20 +20,41 @@ theorem failing_execution_is_last (c : Ctx) (cgr : CallGraphResult) (target : Fu
     (callWith c cgr target fuel s0).2.log.getLast? = some ev ∧
     ((callWith c cgr target fuel s0).1 = .convErr ε ∨
      ∃ r, (callWith c cgr target fuel s0).1 = .targetErr ε r) := by
-  sorry
+  obtain ⟨app, hlog, hp⟩ := callWith_eff c cgr target fuel s0
+  rw [hl, List.nil_append] at hlog
+  rw [hlog] at hev ⊢
+  generalize (callWith c cgr target fuel s0).1 = out at hp
+  cases out with
+  | ok r => exact (hp.2.absurd hev herr).elim
+  | convErr ε' =>
+    rcases hp with h | h
+    · obtain ⟨h1, h2⟩ := h.unique hev herr
+      exact ⟨h1, Or.inl (by rw [h2])⟩
+    · exact (h.1.absurd hev herr).elim
+  | targetErr ε' r =>
+    rcases hp.2 with h | h
+    · obtain ⟨h1, h2⟩ := h.unique hev herr
+      exact ⟨h1, Or.inr ⟨r, by rw [h2]⟩⟩
+    · exact (h.absurd hev herr).elim
+  | _ => exact (NoErr.absurd hp hev herr).elim
 
 /-- **(ii)** — a call whose result carries no error executed no failing function -/
 theorem ok_means_no_failure (c : Ctx) (cgr : CallGraphResult) (target : FuncDesc) (fuel : Nat)
     (s0 : CallSt) (hl : s0.log = []) (r : BehOut)
     (hok : (callWith c cgr target fuel s0).1 = .ok r) :
     r.err = none ∧ ∀ ev ∈ (callWith c cgr target fuel s0).2.log, ev.res.err = none := by
-  sorry
+  obtain ⟨app, hlog, hp⟩ := callWith_eff c cgr target fuel s0
+  rw [hl, List.nil_append] at hlog
+  rw [hlog, hok] at *
+  exact ⟨hp.1, hp.2⟩
 
 /-- **(iii)** — an error returned by the target itself is what the result reports -/
 theorem target_error_reported (c : Ctx) (cgr : CallGraphResult) (target : FuncDesc) (fuel : Nat)
     (s0 : CallSt) (ε : Nat) (r : BehOut)
     (h : (callWith c cgr target fuel s0).1 = .targetErr ε r) : r.err = some ε := by
-  sorry
+  obtain ⟨app, _, hp⟩ := callWith_eff c cgr target fuel s0
+  rw [h] at hp
+  exact hp.1
 
 /-- a converter error is never turned into anything else: when `Call` reports a converter error,
 either the last execution of this call produced it, or it is the memoised error of a run-once
@@ -42,6 +64,12 @@ theorem conv_error_verbatim (c : Ctx) (cgr : CallGraphResult) (target : FuncDesc
     (h : (callWith c cgr target fuel s0).1 = .convErr ε) :
     (∃ ev, (callWith c cgr target fuel s0).2.log.getLast? = some ev ∧ ev.res.err = some ε) ∨
     (∃ m ∈ s0.memo, m.2.res.err = some ε) := by
-  sorry
+  obtain ⟨app, hlog, hp⟩ := callWith_eff c cgr target fuel s0
+  rw [hl, List.nil_append] at hlog
+  rw [hlog]
+  rw [h] at hp
+  rcases hp with ⟨init, ev, rfl, _, he⟩ | ⟨_, m, hm, he⟩
+  · exact Or.inl ⟨ev, by simp, he⟩
+  · exact Or.inr ⟨m, hm, he⟩
 
 end ArgMapper.C04
